@@ -32,9 +32,9 @@ namespace ForML.Graph
 
 /-! ### helper lemmas -/
 
-private theorem publish_future' (g : G) (p pi s k : Nat) (hf : isFuture g s = true) (hne : s ≠ p) :
-    publish g p pi ⟨s, .apply k⟩ = register g s k p pi :=
-  publish_future g p pi ⟨s, .apply k⟩ hf hne
+private theorem publish_future' (g : G) (p pi s : Nat) (k : Port) (hf : isFuture g s = true) (hne : s ≠ p) :
+    publish g p pi ⟨s, k⟩ = register g s k.index p pi :=
+  publish_future g p pi ⟨s, k⟩ hf hne
 
 /-! ### C11 — well-formedness after every call sequence -/
 
@@ -67,7 +67,7 @@ theorem C11_wf_step (g : G) (op : Op) (hw : Wf g) : Wf (step g op).1 := by
           rcases node_kind g s hs with h | h
           · exact h
           · exact absurd h hf
-        exact publish_wf g p pi ⟨s, .apply j⟩ hw hwk hp (fun h => by simp [Port.isApply] at h)
+        exact publish_wf g p pi ⟨s, .apply j⟩ hw hwk hp
   | publish p pi s k =>
     simp only [step, publishOp]
     split
@@ -76,12 +76,12 @@ theorem C11_wf_step (g : G) (op : Op) (hw : Wf g) : Wf (step g op).1 := by
       have hs : s < g.nodes.length := by omega
       have hp : p < g.nodes.length := by omega
       rcases node_kind g s hs with hwk | hf
-      · exact publish_wf g p pi ⟨s, .apply k⟩ hw hwk hp (fun h => by simp [Port.isApply] at h)
+      · exact publish_wf g p pi ⟨s, k⟩ hw hwk hp
       · by_cases heq : s = p
-        · obtain ⟨e, h⟩ := publish_self_future g p pi ⟨s, .apply k⟩ hf heq
+        · obtain ⟨e, h⟩ := publish_self_future g p pi ⟨s, k⟩ hf heq
           rw [h]; exact hw
         · rw [publish_future' g p pi s k hf heq]
-          exact register_wf g s k p pi hw hf hp
+          exact register_wf g s k.index p pi hw hf hp
   | train n tp ti lp li =>
     simp only [step]
     rcases train_cases g n tp ti lp li hw with ⟨e, h⟩ | ⟨L1, L2, h, _, _, hw2, _⟩
@@ -161,12 +161,12 @@ theorem C11_atomic_step (g : G) (op : Op) (hw : Wf g) (ha : op.atomic = true) (h
       have hs : s < g.nodes.length := by omega
       have hp : p < g.nodes.length := by omega
       rcases node_kind g s hs with hwk | hf
-      · exact publish_atomic g p pi ⟨s, .apply k⟩ hw hwk hp he
+      · exact publish_atomic g p pi ⟨s, k⟩ hw hwk hp he
       · by_cases heq : s = p
-        · obtain ⟨e, h⟩ := publish_self_future g p pi ⟨s, .apply k⟩ hf heq
+        · obtain ⟨e, h⟩ := publish_self_future g p pi ⟨s, k⟩ hf heq
           rw [h]
         · rw [publish_future' g p pi s k hf heq] at he ⊢
-          exact register_atomic g s k p pi hw hf hp he
+          exact register_atomic g s k.index p pi hw hf hp he
   | train n tp ti lp li =>
     simp only [step] at he ⊢
     rcases train_cases g n tp ti lp li hw with ⟨e, h⟩ | ⟨L1, L2, h, _⟩
@@ -244,7 +244,7 @@ example :
 def SingleOp (g : G) (op : Op) : Bool :=
   match op with
   | .subscribe s j _ _ => !(isFuture g s && g.regs.any (fun r => r.fut == s && r.idx == j))
-  | .publish _ _ s k => !(isFuture g s && g.regs.any (fun r => r.fut == s && r.idx == k))
+  | .publish _ _ s k => !(isFuture g s && g.regs.any (fun r => r.fut == s && r.idx == k.index))
   | .extend _ _ _ _ => decide (KeyNodup (step g op).1)
   | .textend _ _ _ _ => decide (KeyNodup (step g op).1)
   | .compose _ => decide (KeyNodup (step g op).1)
@@ -303,24 +303,24 @@ theorem C11_chain_step (g : G) (op : Op) (hw : Wf g) (hs : SingleReg g) (hc : Ch
       have hsl : s < g.nodes.length := by omega
       have hp : p < g.nodes.length := by omega
       rcases node_kind g s hsl with hwk | hf
-      · rcases publish_cases g p pi ⟨s, .apply k⟩ hw hwk hp with ⟨e, h⟩ | ⟨L, h, _, facts⟩
+      · rcases publish_cases g p pi ⟨s, k⟩ hw hwk hp with ⟨e, h⟩ | ⟨L, h, _, facts⟩
         · rw [h]; exact ⟨hs, hc⟩
         · rw [h]
           obtain ⟨_, fresh, _, _, _, f5, f6⟩ := facts
-          exact ⟨hs, chain_publish g _ ⟨s, .apply k⟩ L p pi (fuelOf g) hs hc rfl rfl fresh
+          exact ⟨hs, chain_publish g _ ⟨s, k⟩ L p pi (fuelOf g) hs hc rfl rfl fresh
             (fun e he => ⟨(f5 e he).1, f6 e he⟩)⟩
       · by_cases heq : s = p
-        · obtain ⟨e, h⟩ := publish_self_future g p pi ⟨s, .apply k⟩ hf heq
+        · obtain ⟨e, h⟩ := publish_self_future g p pi ⟨s, k⟩ hf heq
           rw [h]; exact ⟨hs, hc⟩
         · rw [publish_future' g p pi s k hf heq]
-          have hno : ∀ r ∈ g.regs, ¬(r.fut = s ∧ r.idx = k) := by
+          have hno : ∀ r ∈ g.regs, ¬(r.fut = s ∧ r.idx = k.index) := by
             intro r hr ⟨h1, h2⟩
             simp only [SingleOp, hf, Bool.true_and, Bool.not_eq_true', List.any_eq_false, Bool.and_eq_true,
               beq_iff_eq, not_and] at ho
             exact ho r hr h1 h2
-          rcases register_cases g s k p pi hw hf hp with ⟨e, h⟩ | ⟨L, h, facts⟩
+          rcases register_cases g s k.index p pi hw hf hp with ⟨e, h⟩ | ⟨L, h, facts⟩
           · rw [h]; exact ⟨hs, hc⟩
-          · rw [h]; exact chain_register g s k p pi L hs hc hno facts
+          · rw [h]; exact chain_register g s k.index p pi L hs hc hno facts
   | train n tp ti lp li =>
     simp only [step]
     rcases train_cases g n tp ti lp li hw with ⟨e, h⟩ | ⟨L1, L2, h, facts1, facts2, _, _⟩
@@ -466,18 +466,18 @@ theorem C11_closed_step (g : G) (op : Op) (hw : Wf g) (hc : Closed g) : Closed (
       have hsl : s < g.nodes.length := by omega
       have hp : p < g.nodes.length := by omega
       rcases node_kind g s hsl with hwk | hf
-      · rcases publish_cases g p pi ⟨s, .apply k⟩ hw hwk hp with ⟨e, h⟩ | ⟨L, h, hpt, facts⟩
+      · rcases publish_cases g p pi ⟨s, k⟩ hw hwk hp with ⟨e, h⟩ | ⟨L, h, hpt, facts⟩
         · rw [h]; exact hc
         · rw [h]
           obtain ⟨_, _, _, _, _, f5, f6⟩ := facts
-          exact closed_publish g p pi ⟨s, .apply k⟩ L hc hpt (fun e he => ⟨(f5 e he).1, f6 e he⟩)
+          exact closed_publish g p pi ⟨s, k⟩ L hc hpt (fun e he => ⟨(f5 e he).1, f6 e he⟩)
       · by_cases heq : s = p
-        · obtain ⟨e, h⟩ := publish_self_future g p pi ⟨s, .apply k⟩ hf heq
+        · obtain ⟨e, h⟩ := publish_self_future g p pi ⟨s, k⟩ hf heq
           rw [h]; exact hc
         · rw [publish_future' g p pi s k hf heq]
-          rcases register_cases g s k p pi hw hf hp with ⟨e, h⟩ | ⟨L, h, facts⟩
+          rcases register_cases g s k.index p pi hw hf hp with ⟨e, h⟩ | ⟨L, h, facts⟩
           · rw [h]; exact hc
-          · rw [h]; exact closed_register g s k p pi L hc h facts
+          · rw [h]; exact closed_register g s k.index p pi L hc h facts
   | train n tp ti lp li =>
     simp only [step]
     rcases train_cases g n tp ti lp li hw with ⟨e, h⟩ | ⟨L1, L2, h, facts1, facts2, _, hpt1, hpt2⟩
@@ -966,6 +966,57 @@ example :
     (step (run init (ops.take 6)) (ops.getD 6 (.fork 0))).2 = .node 3 ∧
     (step (run init (ops.take 7)) (ops.getD 7 (.fork 0))).2 = .node 1 ∧
     AllSingle init ops ∧ (run init ops).edges.length = 1 ∧ (run init ops).regs.length = 1 := by
+  decide
+
+/-! ### C11 — the raw port API: `Train()`, `Label()` and `Apply(i)` subscriptions one at a time -/
+
+/-- `Worker.trained` as the code defines it: subscribed on the Train port **or** on the Label port -/
+theorem C11_trained_iff (g : G) (n : Nat) :
+    trained g n = true ↔ (⟨n, .train⟩ : Sub) ∈ g.ports ∨ (⟨n, .label⟩ : Sub) ∈ g.ports := by
+  unfold trained
+  simp only [List.any_eq_true, Bool.not_eq_true']
+  constructor
+  · rintro ⟨q, hq, hqa⟩
+    cases q with
+    | apply i => simp [Port.isApply] at hqa
+    | train => exact .inl ((mem_inputs' g n .train).mp hq)
+    | label => exact .inr ((mem_inputs' g n .label).mp hq)
+  · rintro (h | h)
+    · exact ⟨.train, (mem_inputs' g n .train).mpr h, rfl⟩
+    · exact ⟨.label, (mem_inputs' g n .label).mpr h, rfl⟩
+
+/-- **C11_raw_port_group_rule**: in every state, `publisher.publish(worker, Train())` / `(worker, Label())` through the
+raw port API is refused - nothing changes - when another member of the worker's group is trained (subscribed on its
+Train or on its Label port), exactly as `Worker.train` is -/
+theorem C11_raw_port_group_rule (g : G) (p pi s m : Nat) (port : Port) (hp : port.isApply = false)
+    (hs : isWorker g s = true) (hm : m ∈ group g s) (hne : m ≠ s) (ht : trained g m = true) :
+    ∃ e, step g (.publish p pi s port) = (g, .err e) := by
+  simp only [step, publishOp]
+  split
+  · exact ⟨_, rfl⟩
+  · unfold publish
+    have hsf := isFuture_of_isWorker g s hs
+    simp only [hsf, Bool.false_eq_true, false_and, ↓reduceIte]
+    cases hsub : subscription g ⟨s, port⟩ with
+    | some e => exact ⟨e, rfl⟩
+    | none =>
+      exfalso
+      have c5 := (subscription_none g ⟨s, port⟩ hsub).2.2.2.2 hp
+      have := List.any_eq_false.mp c5 m hm
+      simp [ht, hne] at this
+
+/-- non-vacuity: a worker subscribed on its Label port only is trained: it does not publish, takes no Apply port, no
+other member of its group becomes trained (raw port API or `Worker.train`), and the Train port completes it -/
+example :
+    let ops := [Op.mkWorker false 1 1, .mkWorker true 1 1, .fork 1, .publish 0 0 1 .label]
+    trained (run init ops) 1 = true ∧
+    (step (run init ops) (.publish 1 0 0 (.apply 0))).2 = .err .trainedPublishing ∧
+    (step (run init ops) (.publish 0 0 2 .train)).2 = .err .forkTrain ∧
+    (step (run init ops) (.train 2 0 0 0 0)).2 = .err .forkTrain ∧
+    (step (run init ops) (.publish 0 0 1 (.apply 0))).2 = .err .collision ∧
+    (step (run init ops) (.publish 0 0 1 .label)).2 = .err .double ∧
+    (step (run init ops) (.publish 0 0 1 .train)).2 = .ok ∧
+    AllSingle init (ops ++ [.publish 0 0 1 .train]) := by
   decide
 
 end ForML.Graph
